@@ -75,6 +75,9 @@ var alienTypes = []string{"XFIH", "XFKM", "MThx", "mtrk", "RIFF", "\x00\x00\x00\
 
 func genAlien(r *core.Rand) ref.FChunk {
 	n := r.PickInt(0, 1, 2, 7, 8, 9, 50, 300)
+	if r.Chance(1, 60) {
+		n = r.PickInt(65536, 70000, 66000) // the length needs its third byte
+	}
 	return ref.FChunk{AlienType: alienTypes[r.Intn(len(alienTypes))], AlienData: r.Bytes(n)}
 }
 
